@@ -1,6 +1,7 @@
 import ZapVerif.Drv.Util
 import ZapVerif.Model.Entry
 import ZapVerif.Model.Console
+import ZapVerif.Model.MapEnc
 /-! parser of the encoder-family op format (shared by C01, C02, C10, C16) -/
 namespace ZapVerif.Drv.EncOp
 open Lean ZapVerif ZapVerif.Drv ZapVerif.Json ZapVerif.Enc ZapVerif.Entry
@@ -44,6 +45,7 @@ def parseSub (j : Json) (encKind : String) (k : String) : R SubRes := do
 structure Kinds where
   timeEnc : String
   durEnc : String
+  mapView : Bool := false   -- parse for the map encoder: a failed reflection is still a member there
 
 def parseTimeV (ks : Kinds) (j : Json) : R TimeV := do
   return ⟨← decInt j "nanos", ← parseSub j ks.timeEnc "v"⟩
@@ -65,7 +67,7 @@ partial def parseOC (ks : Kinds) (j : Json) : R (List OC) := do
   | "arr" => return [OC.arr (hexFldD j "key") (← parseACs ks (arrD j "calls"))]
   | "ns" => return [OC.ns (hexFldD j "key")]
   | "refl" =>
-    if isNull j "j" then return []
+    if isNull j "j" then return (if ks.mapView then [OC.prim (hexFldD j "key") (J.atom [])] else [])
     return [OC.prim (hexFldD j "key") (← parseJsonLeaf (← hexFld j "j"))]
   | _ => throw s!"bad call {m}"
 partial def parseOCs (ks : Kinds) (a : Array Json) : R (List OC) := do
@@ -79,7 +81,7 @@ partial def parseAC (ks : Kinds) (j : Json) : R (List AC) := do
   | "obj" => return [AC.obj (← parseOCs ks (arrD j "calls"))]
   | "arr" => return [AC.arr (← parseACs ks (arrD j "calls"))]
   | "refl" =>
-    if isNull j "j" then return []
+    if isNull j "j" then return (if ks.mapView then [AC.prim (J.atom [])] else [])
     return [AC.prim (← parseJsonLeaf (← hexFld j "j"))]
   | _ => throw s!"bad array call {m}"
 partial def parseACs (ks : Kinds) (a : Array Json) : R (List AC) := do
@@ -119,7 +121,8 @@ partial def parseField (ks : Kinds) (j : Json) : R Field := do
   | "skip" => return .skip
   | "dict" =>
     let fs ← (arrD j "fields").toList.mapM (parseField ks)
-    return .obj k (addFields fs) none          -- zap.Dict = Object(key, marshaler that AddTo's each field)
+    -- zap.Dict = Object(key, marshaler that AddTo's each field)
+    return .obj k (if ks.mapView then fs.flatMap MapEnc.addToMap else addFields fs) none
   | _ => throw s!"bad field {f}"
 
 structure Op where
@@ -133,7 +136,7 @@ structure Op where
 
 def parseOp (op : Json) : R Op := do
   let c ← fld op "cfg"
-  let ks : Kinds := ⟨strD c "timeEnc" "nil", strD c "durEnc" "nil"⟩
+  let ks : Kinds := ⟨strD c "timeEnc" "nil", strD c "durEnc" "nil", false⟩
   let cfg : Cfg := { messageKey := hexFldD c "mk", levelKey := hexFldD c "lk", timeKey := hexFldD c "tk",
                      nameKey := hexFldD c "nk", callerKey := hexFldD c "ck", functionKey := hexFldD c "fk",
                      stacktraceKey := hexFldD c "sk", lineEnding := hexFldD c "le", skipLineEnding := boolD c "skipLE" false }
@@ -153,6 +156,24 @@ def parseOp (op : Json) : R Op := do
   let fields ← (arrD op "fields").toList.mapM (parseField ks)
   return { cfg, ent, ctx, fields, console := boolD op "console" false, consoleSep := hexFldD c "sep",
            cols := ⟨← optHex e "timeC", ← optHex e "lvlC", ← optHex e "nameC", ← optHex e "callerC"⟩ }
+
+/-- skeleton of the map `zapcore.MapObjectEncoder` builds for the op's context + call-site fields -/
+partial def jskel : MapEnc.MV → Json
+  | .leaf => Json.str "l"
+  | .arr xs => obj [("a", Json.arr (xs.map jskel).toArray)]
+  | .obj kvs =>
+    let sorted := (kvs.map fun (k, v) => (k.toHex, jskel v)).toArray.qsort (fun a b => a.1 < b.1)
+    obj [("o", Json.arr (sorted.map fun (k, v) => Json.arr #[Json.str k, v]))]
+
+def mapSkeleton (op : Json) : R Json := do
+  let c ← fld op "cfg"
+  let ks : Kinds := ⟨strD c "timeEnc" "nil", strD c "durEnc" "nil", true⟩
+  let ctx ← (arrD op "ctx").toList.mapM (fun l => do
+    let a ← l.getArr?
+    a.toList.mapM (parseField ks))
+  let fields ← (arrD op "fields").toList.mapM (parseField ks)
+  let calls := (ctx.flatten ++ fields).flatMap MapEnc.addToMap
+  return jskel (.obj (MapEnc.mapFrom id [] calls))
 
 def handle (op : Json) : R Json := do
   let o ← parseOp op
